@@ -782,3 +782,17 @@ def parameter_index_with_vector_result(case):
 def index_of_index_axis(case):
     """index(index_axis(A, k, 1), j) through the generated code: KeyError 'A[:,k]'"""
     return case.get("form") == "index_of_axis" and case.get("path") == "codegen"
+
+
+@predicate("F-07d")
+def vectorized_edge_template_with_unequal_value_keys(case):
+    """vectorize=True and >=2 edges through one EdgeTemplate whose attribute dictionaries (incl. update_var) name
+    different sets of edge-operator variables"""
+    if "tv" not in case or not case.get("vectorize"):
+        return False
+    keys = []
+    for i, e in enumerate(case["edges"]):
+        if e["tmpl"]:
+            ks = set(e["ev"]) | {u["key"] for u in case.get("updates", []) if u["e"] == i and u["key"] != "weight"}
+            keys.append(frozenset(ks))
+    return len(set(keys)) > 1
